@@ -8,7 +8,7 @@
 (* (sort without carrier, integer beyond TLC's range) is reported in the    *)
 (* `skip` component, never as a failure.                                    *)
 (***************************************************************************)
-EXTENDS SmtInterps
+EXTENDS Derived
 
 CONSTANT Cap             \* maximum number of interpretations per event
 
@@ -120,5 +120,72 @@ CreateContract(e) ==
 
 \* would the typing rules accept the application?  (used to count well-typed rejections)
 AppWellTyped(app) == TypeOf(IntendedNode(app)) # Ill
+
+\* ------------------------------------------------------------------ C02
+(***************************************************************************)
+(* model.get_value(f, completion) over the model {asg[j] : present[j] = 1}. *)
+(* asg[j] = [n, ty, v] with v a constant term.                              *)
+(***************************************************************************)
+HasDocumentedDefault(ty) == ty.k \in {"Bool", "Int", "Real", "BV"}
+DefaultVal(ty) == CASE ty.k = "Bool" -> FALSE [] ty.k = "Int" -> 0 [] ty.k = "Real" -> <<0, 1>> [] OTHER -> 0
+
+IsValueTerm(t) == t.op \in ConstOps \/ (t.op = "array_value" /\ \A j \in 1..Len(t.a) : t.a[j].op \in ConstOps \cup {"array_value"})
+
+GetValueContract(e) ==
+    LET f == e.f
+        n == Len(e.asg)
+        pres == {j \in 1..n : e.present[j] = 1}
+        miss == {j \in 1..n : e.present[j] = 0}
+        J == [nm \in {e.asg[j].n : j \in pres} |->
+                 Eval(e.asg[CHOOSE j \in pres : e.asg[j].n = nm].v, EmptyMap, QDefault)]
+        docdef == \A j \in miss : HasDocumentedDefault(e.asg[j].ty)
+        D == [nm \in {e.asg[j].n : j \in miss} |-> DefaultVal(e.asg[CHOOSE j \in miss : e.asg[j].n = nm].ty)]
+        tf == TypeOf(f)
+        tout == TypeOf(e.out)
+        outv == Eval(e.out, EmptyMap, QDefault)
+        shape == Fl("value_is_constant", IsValueTerm(e.out)) \o
+                 Fl("output_well_typed", tout # Ill) \o
+                 Fl("same_type", tout = Ill \/ tout = tf) \o
+                 Fl("reported_type_out", tout = Ill \/ e.rty = tout)
+    IN
+    IF tf = Ill THEN Verdict(<<"input_well_typed">>, <<>>, -1)
+    ELSE IF ~(CanEval(f)) THEN Verdict(<<>>, <<"value">>, -1)
+    ELSE IF miss = {} \/ (e.completion /\ docdef) THEN
+        LET I == Override(J, D) IN
+        IF DivZero(f, I, QDefault) THEN Accept
+        ELSE IF e.res # "value" THEN Verdict(<<"value_returned">>, <<>>, -1)
+        ELSE IF shape # <<>> THEN Verdict(shape, <<>>, -1)
+        ELSE Verdict(Fl("exact_value", outv = Eval(f, I, QDefault)) \o
+                     Fl("satisfies_iff_true", e.sat = "na" \/ (tf = TBool /\ (e.sat = "true") = Eval(f, I, QDefault))),
+                     <<>>, -1)
+    ELSE \* partial model without (documented) completion
+        IF e.res # "value" THEN Accept
+        ELSE IF shape # <<>> THEN Verdict(shape, <<>>, -1)
+        ELSE LET ms == SymSeq({BVar(e.asg[j].n, e.asg[j].ty) : j \in miss})
+                 bad == {k \in InterpIdx(ms, Cap) :
+                            LET I == Override(J, InterpAt(ms, k, Cap))
+                            IN  ~DivZero(f, I, QDefault) /\ Eval(f, I, QDefault) # outv}
+             IN  Verdict(Fl("holds_for_every_completion", bad = {}), <<>>,
+                         IF bad = {} THEN -1 ELSE CHOOSE k \in bad : TRUE)
+
+\* ------------------------------------------------------------------ C06
+(* built = constructor `name` applied to argument terms a with Python parameters p *)
+DerivedContract(e) ==
+    IF e.res # "ok" THEN Verdict(<<"construction_failed">>, <<>>, -1)
+    ELSE
+    LET n == Len(e.a)
+        ts == [j \in 1..n |-> TyF(e.a[j])]
+        tb == TypeOf(e.built)
+        want == NamedSort(e.name, ts, e.p)
+        shape == Fl("output_well_typed", tb # Ill) \o
+                 Fl("result_sort", tb = Ill \/ tb = want) \o
+                 Fl("reported_type_out", tb = Ill \/ e.rty = tb)
+        syms == SymSeq(UNION {FreeSyms(e.a[j]) : j \in 1..n} \cup FreeSyms(e.built))
+        bad == {k \in InterpIdx(syms, Cap) :
+                   LET I == InterpAt(syms, k, Cap)
+                       vs == [j \in 1..n |-> Eval(e.a[j], I, QDefault)]
+                   IN  ~DivZero(e.built, I, QDefault) /\ Eval(e.built, I, QDefault) # Named(e.name, vs, ts, e.p)}
+    IN  IF shape # <<>> THEN Verdict(shape, <<>>, -1)
+        ELSE Verdict(Fl("denotes_named_function", bad = {}), <<>>, IF bad = {} THEN -1 ELSE CHOOSE k \in bad : TRUE)
 
 =============================================================================
